@@ -17,6 +17,12 @@ engine `onchain` + spec OnChain.tla.
                    HTLCDescriptors, signed by the real second node), profile c06s
     histories      reorganisations that unconfirm the commitment / second-stage transactions / claims and let them
                    confirm again (model: MUnwind, MBlockBack; engine: op `unwind`), profiles c06r, c07u
+    two channels   a node with two (three) unilaterally closed channels -- holder- and counterparty-broadcast closes, all
+                   channel types, pending HTLCs -- whose matured SpendableOutputs (StaticPaymentOutput / DelayedPaymentOutput /
+                   StaticOutput mixed) are swept in ONE spend_spendable_outputs call (what OutputSweeper does), per event, one
+                   by one and in random batches (model: Features "second", MOther, SweepSets; engine: cfg.second, op `close2`,
+                   cfg.sweep), profiles c07m, c06m; obligation Sweep of OnChain.tla: every request for reported outputs is
+                   answered by a valid, final transaction spending exactly them
     spec mutants   an ideal monitor with a planted defect (ignores second-stage transactions whose input and output
                    counts differ; never claims an output twice) must be refuted by TLC
     oracle         TLC validates every recorded run against OnChainTrace.tla
@@ -33,6 +39,9 @@ def convert_script(s, rng):
     """One completed run of OnChainMC (abstract) -> engine script."""
     revoked = s["mode"] == "revoked"
     owner = 1
+    # the node under test with a second closed channel (the model's Hub: the victim / node 0), deferred sweeping
+    second, hold = bool(s.get("second")), bool(s.get("hold"))
+    closed2, wide = False, False
     shape = s["shape"]
     hist, pay_of, kind_of = [], {}, {}
     for h in shape:
@@ -60,7 +69,7 @@ def convert_script(s, rng):
                  {"op": "pay", "from": 1 - owner, "amt": "small"}]
         close = {"kind": "revoked", "owner": owner, "k": "mark"}
         chain.append({"op": "mine", "who": [2], "agent_htlcs": []})
-        base = [2]
+        base = [2, 3] if second else [2]
     else:
         r = rng.random()
         close = ({"kind": "force", "node": owner, "deliver_error": False} if r < 0.5
@@ -122,6 +131,17 @@ def convert_script(s, rng):
                 chain += [{"op": "rebroadcast", "node": 0}, {"op": "rebroadcast", "node": 1}]
         elif o["op"] == "reload":
             chain.append({"op": "reload", "node": o["node"]})
+        elif o["op"] == "other" and second and not closed2:
+            # the first output of the node's other channel is reported: that channel has gone to the chain -- by the
+            # node's own commitment (its delayed balance) or by its peer's (its balance on the peer's commitment)
+            closed2 = True
+            kind2 = "holder" if o["out"] == 1 else "counterparty"
+            if len(chain) == 1:
+                close["close2"] = kind2
+            else:
+                chain.append({"op": "close2", "kind": kind2})
+        elif o["op"] == "sweep":
+            wide = wide or 0 < o["other"] < o["k"]
     chain.append({"op": "settle"})
     if not revoked and rng.random() < 0.5 and not any(o["op"] == "unwind" for o in s["ops"]):
         # a fee-estimator trajectory around the model's blocks: high when the channel goes to chain,
@@ -141,6 +161,17 @@ def convert_script(s, rng):
            "feerate": rng.choice([253, 1000, 2500]), "style": [rng.randrange(11), rng.randrange(11)]}
     if manual:
         cfg["agent_manual"] = True
+    if second:
+        htlcs = []
+        r = rng.random()
+        if r < 0.2:
+            htlcs.append({"from": "hub", "amt": rng.randrange(5000000, 60000000)})
+        elif r < 0.45:
+            htlcs.append({"from": "peer", "amt": rng.randrange(5000000, 60000000), "known": rng.random() < 0.8})
+        cfg["second"] = {"hub": 1 - owner, "chan_type": rng.choice(TYPES), "value": rng.choice([600000, 800000, 1200000]),
+                         "push": rng.choice([100000000, 250000000, 300000000]), "htlcs": htlcs}
+        # one call for everything the node holds (the model's sweep over both channels), or as the application likes
+        cfg["sweep"] = {"mode": "all" if (hold or wide) else rng.choice(["all", "mixed", "event", "each"]), "defer": hold}
     return {"cfg": cfg, "history": hist, "close": close, "chain": chain}
 
 
@@ -483,6 +514,12 @@ def selftest(pid, wd, tpaths, skip_runs=()):
     evs, k = first_run(lambda evs: next((i for i, e in enumerate(evs) if e["ev"] == "sweep" and e["ok"]), None))
     if evs:
         m = copy.deepcopy(evs); m[k]["valid"] = False; muts.append(("sweep-invalid", m))
+    # (5b) one call for matured outputs of two channels of the node is refused by its OutputSpender / leaves one of them out
+    evs, k = first_run(lambda evs: next((i for i, e in enumerate(evs) if e["ev"] == "sweep" and e["ok"] and e.get("signers", 0) >= 2), None))
+    if evs:
+        m = copy.deepcopy(evs); m[k].update({"ok": False, "tx": 0, "ins": [], "out_amt": 0, "fee": 0, "valid": False, "final": False})
+        muts.append(("two-channel-sweep-refused", m))
+        m = copy.deepcopy(evs); m[k]["ins"] = m[k]["ins"][:-1]; muts.append(("two-channel-sweep-leaves-output-out", m))
     if pid == "C07":
         def awaiting(evs):
             idx = [i for i, e in enumerate(evs) if e["ev"] == "bal" and any(x["k"] == "awaiting" for x in e["items"])]
@@ -616,7 +653,7 @@ def selftest(pid, wd, tpaths, skip_runs=()):
             rejected += 1
         else:
             vlib.log("[selftest] corruption %s was NOT rejected" % name)
-    need = 8 if pid == "C07" else 10
+    need = 10 if pid == "C07" else 12
     if len(muts) < need or rejected != len(muts):
         raise vlib.ToolError("binding self-test: %d of %d corrupted traces rejected (%s)" % (rejected, len(muts), names))
     return {"mutations": len(muts), "rejected": rejected, "kinds": names}
@@ -638,8 +675,14 @@ def stats_of(tpath):
           "unwinds_of_confirmed_claims": 0, "commitment_reconfirmed": 0, "commitment_reconfirmed_other_height": 0,
           "claims_after_reconfirmation": 0, "max_unwind_depth": 0,
           "runs_with_duplicate_hash_htlcs": 0, "late_preimages_for_duplicate_hashes": 0, "competing_commitment_confirmed": 0,
-          "previous_holder_commitment_runs": 0, "late_preimages_on_previous_holder_commitment": 0}
+          "previous_holder_commitment_runs": 0, "late_preimages_on_previous_holder_commitment": 0,
+          # a node with two closed channels; how the application sweeps
+          "runs_with_second_channel": 0, "second_channel_closes": {"holder": 0, "counterparty": 0}, "spendable_events_of_second_channel": 0,
+          "sweeps_of_several_descriptors": 0, "sweeps_needing_two_channel_signers": 0, "sweeps_two_signers_static_payment_and_delayed": 0,
+          "sweeps_two_signers_with_static_output": 0, "single_channel_sweeps_in_two_channel_runs": 0, "sweeps_refused": 0,
+          "sweep_modes": {}, "deferred_sweep_runs": 0}
     cur = None
+    two = False
     dup_hashes, prevh = set(), False
     shapes, comtx, comh, recommitted, agent_all, victim_claims = {}, None, None, False, set(), set()
     agent, conf = set(), set()
@@ -662,6 +705,10 @@ def stats_of(tpath):
                 shapes, comtx, comh, recommitted, agent_all, victim_claims = {}, None, None, False, set(), set()
                 dup_hashes, prevh = set(), e["kind"] == "cp_previous" and len(e["live"]) == 2
                 st["previous_holder_commitment_runs"] += 1 if prevh else 0
+                two = bool(e.get("second"))
+                st["runs_with_second_channel"] += 1 if two else 0
+                st["sweep_modes"][e.get("sweep", "each")] = st["sweep_modes"].get(e.get("sweep", "each"), 0) + 1
+                st["deferred_sweep_runs"] += 1 if e.get("defer") else 0
                 st["types"][e["chan_type"]] = st["types"].get(e["chan_type"], 0) + 1
                 st["kinds"][e["kind"]] = st["kinds"].get(e["kind"], 0) + 1
                 for s in e["styles"]:
@@ -754,8 +801,20 @@ def stats_of(tpath):
                 st["late_preimages_on_previous_holder_commitment"] += 1 if prevh else 0
             elif e["ev"] == "spendable":
                 st["spendable"] += len(e["outs"])
+                st["spendable_events_of_second_channel"] += 1 if e.get("chan") == 2 else 0
             elif e["ev"] == "sweep":
                 st["sweeps"] += 1
+                kinds = e.get("kinds", [])
+                st["sweeps_of_several_descriptors"] += 1 if len(e.get("req", [])) > 1 else 0
+                st["sweeps_refused"] += 0 if e["ok"] else 1
+                if e.get("signers", 0) >= 2:
+                    st["sweeps_needing_two_channel_signers"] += 1
+                    st["sweeps_two_signers_static_payment_and_delayed"] += 1 if "static_payment" in kinds and "delayed" in kinds else 0
+                    st["sweeps_two_signers_with_static_output"] += 1 if "static" in kinds else 0
+                elif two:
+                    st["single_channel_sweeps_in_two_channel_runs"] += 1
+            elif e["ev"] == "close2":
+                st["second_channel_closes"][e["kind"]] += 1
             elif e["ev"] == "reload":
                 st["reloads"] += 1
     if agent & conf:
@@ -775,10 +834,10 @@ def run_check(pid, tier, seed, assumptions):
     prof = "c06" if pid == "C06" else "c07"
 
     # ---- design check + behaviours: (cfg, how many of its behaviours become driver scripts)
-    cfgs = {("C06", False): [("OnChainMC.cfg", 80), ("OnChainMCs.cfg", 60), ("OnChainMCr.cfg", 70)],
-            ("C06", True): [("OnChainMCt.cfg", 700), ("OnChainMCst.cfg", 350), ("OnChainMCrt.cfg", 450)],
-            ("C07", False): [("OnChainMCh.cfg", 60), ("OnChainMCh3.cfg", 60), ("OnChainMChr.cfg", 40), ("OnChainMChd.cfg", 30)],
-            ("C07", True): [("OnChainMCht.cfg", 900), ("OnChainMChrt.cfg", 300), ("OnChainMChdt.cfg", 300)]}[(pid, thorough)]
+    cfgs = {("C06", False): [("OnChainMC.cfg", 80), ("OnChainMCs.cfg", 60), ("OnChainMCr.cfg", 70), ("OnChainMC2q.cfg", 30)],
+            ("C06", True): [("OnChainMCt.cfg", 700), ("OnChainMCst.cfg", 350), ("OnChainMCrt.cfg", 450), ("OnChainMC2.cfg", 200)],
+            ("C07", False): [("OnChainMCh.cfg", 60), ("OnChainMCh3.cfg", 60), ("OnChainMChr.cfg", 40), ("OnChainMChd.cfg", 30), ("OnChainMCh2q.cfg", 40)],
+            ("C07", True): [("OnChainMCht.cfg", 900), ("OnChainMChrt.cfg", 300), ("OnChainMChdt.cfg", 300), ("OnChainMCh2.cfg", 300)]}[(pid, thorough)]
     mcs, conv, ntlc = [], [], {}
     # prefer the behaviours in which the environment is active
     def weight(s):
@@ -793,6 +852,9 @@ def run_check(pid, tier, seed, assumptions):
                 w += 3 if (s["mode"] == "honest" and o["h"] >= 14 and len(o["who"]) == 1) else 0
             elif o["op"] == "unwind":
                 w += 3 + (1 if o["evict"] else 0)
+            elif o["op"] == "sweep":
+                # one call over outputs of both channels
+                w += 4 if 0 < o["other"] < o["k"] else 1
             else:
                 w += 1
         return w
@@ -801,11 +863,14 @@ def run_check(pid, tier, seed, assumptions):
         if r["violated"]:
             raise vlib.ToolError("design model violates %s in %s (spec needs correction)" % (r["violated"], cfg))
         reorg = cfg.startswith(("OnChainMCr", "OnChainMChr"))
+        two = cfg.startswith(("OnChainMC2", "OnChainMCh2"))
         need = ["MReact", "MSpendable", "MSweep", "MCheck", "MBlockFair", "MFinal"] + (["MBal"] if pid == "C07" else []) \
             + (["MReload"] if cfg in ("OnChainMC.cfg", "OnChainMCt.cfg", "OnChainMCh.cfg", "OnChainMCht.cfg", "OnChainMCst.cfg") else []) \
-            + (["MUnwind", "MBlockBack"] if reorg else [])
+            + (["MUnwind", "MBlockBack"] if reorg else []) + (["MOther"] if two else [])
         vlib.require_coverage(r, need, cfg)
         got = vlib.tlc_printed(r["out"], "SCRIPT")
+        if two and not (any(o["op"] == "sweep" and 0 < o["other"] < o["k"] for s in got for o in s["ops"]) and any(not s["hold"] for s in got)):
+            raise vlib.ToolError("vacuity: no sweep call over outputs of both channels / no undeferred sweeping in %s" % cfg)
         if not any(o["op"] == "block" and o["cheat"] for s in got for o in s["ops"]) and pid == "C06":
             raise vlib.ToolError("vacuity: the model's cheater never confirmed a second-stage transaction")
         if cfg.startswith("OnChainMCs") and not (any(o["op"] == "block" and len(o["ins"]) != len(o["outs"]) for s in got for o in s["ops"])
@@ -827,7 +892,7 @@ def run_check(pid, tier, seed, assumptions):
         conv += [convert_script(s, rng) for s in head[:cap]]
     # spec mutants: an ideal monitor with a planted defect must be refuted by the same obligations
     mutants = []
-    for cfg in ({"C06": ["OnChainMCs_m.cfg", "OnChainMCr_m.cfg"], "C07": ["OnChainMChr_m.cfg", "OnChainMChd_m.cfg"]}[pid]):
+    for cfg in ({"C06": ["OnChainMCs_m.cfg", "OnChainMCr_m.cfg", "OnChainMC2_m.cfg"], "C07": ["OnChainMChr_m.cfg", "OnChainMChd_m.cfg", "OnChainMCh2_m.cfg"]}[pid]):
         r = vlib.tlc_mc(pid, "OnChainMC", cfg, workers=12, timeout=600, coverage=False)
         vlib.log("[mc-mutant] %s: %s" % (cfg, "refuted (%s)" % r["violated"] if r["violated"] else "NOT refuted"))
         if not r["violated"]:
@@ -851,6 +916,8 @@ def run_check(pid, tier, seed, assumptions):
         # hand-made second-stage transactions of every shape; the commitment reorganised out and confirmed again
         batches += [("shapes" if k == 0 else "shapes%d" % (k + 1), ["--random", 400 if thorough else 50, "--profile", "c06s"]) for k in range(3 if thorough else 1)]
         batches += [("unwind" if k == 0 else "unwind%d" % (k + 1), ["--random", 400 if thorough else 70, "--profile", "c06r"]) for k in range(3 if thorough else 1)]
+        # the victim has a second closed channel: justice outputs, its own balance and the other channel's outputs swept together
+        batches += [("multisweep" if k == 0 else "multisweep%d" % (k + 1), ["--random", 200 if thorough else 40, "--profile", "c06m"]) for k in range(2 if thorough else 1)]
     if pid == "C07":
         # late preimages followed by a reorganisation of the tip and rebroadcast requests
         batches += [("reorg" if k == 0 else "reorg%d" % (k + 1), ["--random", 100 if thorough else 40, "--profile", "c07r"]) for k in range(3 if thorough else 1)]
@@ -860,6 +927,9 @@ def run_check(pid, tier, seed, assumptions):
         # the previous, unrevoked holder commitment of a node under test confirming, the preimage arriving afterwards
         for name, prof in (("duphash", "c07d"), ("compete", "c07x"), ("prevholder", "c07p")):
             batches += [(name if k == 0 else "%s%d" % (name, k + 1), ["--random", 200 if thorough else 40, "--profile", prof]) for k in range(3 if thorough else 1)]
+        # a node with two unilaterally closed channels (every mix of holder / counterparty closes and channel types) sweeping
+        # what both hand over in one call, per event, one by one, in random batches
+        batches += [("multisweep" if k == 0 else "multisweep%d" % (k + 1), ["--random", 300 if thorough else 80, "--profile", "c07m"]) for k in range(3 if thorough else 1)]
     nviol, total_events, total_runs, panics, known_hits = 0, 0, 0, 0, {}
     stats, good_traces, bad_runs = {}, [], {}
     for bi, (bname, args) in enumerate(batches):
@@ -959,10 +1029,22 @@ def run_check(pid, tier, seed, assumptions):
                     "holder commitment: %s" % allst)
     if allst["spendable"] < allst["runs"] or allst["sweeps"] < allst["runs"] or allst["reloads"] == 0:
         vacuous("vacuity: too few SpendableOutputs / sweeps / reloads: %s" % allst)
+    # two closed channels of one node, batched sweeps
+    for k in ("runs_with_second_channel", "spendable_events_of_second_channel", "sweeps_of_several_descriptors",
+              "sweeps_needing_two_channel_signers", "sweeps_two_signers_static_payment_and_delayed", "sweeps_two_signers_with_static_output",
+              "single_channel_sweeps_in_two_channel_runs", "sweeps_refused", "deferred_sweep_runs"):
+        allst[k] = sum(stats[b][k] for b in stats)
+    allst["second_channel_closes"] = {k: sum(stats[b]["second_channel_closes"][k] for b in stats) for k in ("holder", "counterparty")}
+    low = MULTI_MIN[pid]
+    if allst["runs_with_second_channel"] < low["runs"] or allst["sweeps_needing_two_channel_signers"] < low["two_signers"] \
+            or allst["sweeps_two_signers_static_payment_and_delayed"] < low["mixed"] or allst["single_channel_sweeps_in_two_channel_runs"] < low["single"] \
+            or min(allst["second_channel_closes"].values()) < low["closes"] or allst["sweeps_of_several_descriptors"] < low["several"]:
+        vacuous("vacuity: too few runs with two closed channels / sweep calls over both channels (mixed descriptor kinds) / "
+                "per-channel calls: %s" % allst)
 
     st = None
     if nviol == 0:
-        st = selftest(pid, wd, [(b, os.path.join(wd, "trace-%s.ndjson" % b)) for b in ("random", "race", "shapes", "unwind") if b in stats], bad_runs)
+        st = selftest(pid, wd, [(b, os.path.join(wd, "trace-%s.ndjson" % b)) for b in ("random", "race", "shapes", "unwind", "multisweep") if b in stats], bad_runs)
         vlib.log("[selftest] %s" % st)
 
     samples = conv[:2]
@@ -982,6 +1064,12 @@ def run_check(pid, tier, seed, assumptions):
     return nviol
 
 
+# least numbers (quick tier) of: runs with a second closed channel, sweep calls that need two channel signers, of those with a
+# StaticPaymentOutput and a DelayedPaymentOutput, sweep calls for one channel in such runs, second channels closed by either
+# side, sweep calls of several descriptors
+MULTI_MIN = {"C06": {"runs": 40, "two_signers": 10, "mixed": 2, "single": 10, "closes": 8, "several": 30},
+             "C07": {"runs": 70, "two_signers": 20, "mixed": 5, "single": 20, "closes": 15, "several": 50}}
+
 COMMON_ASSUMPTIONS = [
     "both nodes are the implementation under test; the would-be cheater is an old-state copy of the real ChannelMonitor "
     "(its commitment and second-stage HTLC transactions are real, signed LDK transactions) that never sweeps its delayed outputs",
@@ -994,4 +1082,9 @@ COMMON_ASSUMPTIONS = [
     "monotonicity of externally funded claims is judged on the feerate the monitor requests (per claim id), that of the "
     "monitor's own transactions on the package feerate of the replacements",
     "outputs worth less than 1000 sat are exempt from the liveness obligations (they cannot pay for a standalone claim)",
+    "the application sweeps what it has been handed with KeysManager::spend_spendable_outputs at 253 sat/kW to one script: one "
+    "descriptor per call, the descriptors of one event, everything mature in one call (OutputSweeper) or random batches, at once or "
+    "only after every balance has drained; a second (third node's) channel of the node is judged through its broadcasts' validity, its "
+    "SpendableOutputs reports, the sweeps and its balances having drained at the end -- not through the per-output obligations, which "
+    "are stated for the channel the run is about",
 ]
